@@ -127,8 +127,29 @@ def pick_sources(rng, ids, p=0.85, max_len=3):
     return out
 
 
+def vary_envelope(rng, doc):
+    """Messages do not all share one envelope layout: drop mosID / ncsID, add an unknown element,
+    move the message element first (the envelope of the message must never matter)."""
+    c = rng.random()
+    kids = list(doc[4])
+    if c < 0.15:
+        kids = [k for k in kids if k[0] != 'ncsID']
+    elif c < 0.25:
+        kids = [k for k in kids if k[0] not in ('ncsID', 'mosID')]
+    elif c < 0.35:
+        kids = [E('mosExtra', text='x')] + kids
+    elif c < 0.42:
+        kids = kids[-1:] + kids[:-1]
+    return [doc[0], doc[1], doc[2], doc[3], kids]
+
+
 def random_message(g, state, message_id, cls=None, p=0.8):
-    """-> (class name, message tree) built against `state`."""
+    """-> (class name, message tree) built against `state`, inside a varied envelope."""
+    cls, doc = _random_message(g, state, message_id, cls, p)
+    return cls, vary_envelope(g.rng, doc)
+
+
+def _random_message(g, state, message_id, cls=None, p=0.8):
     r = g.rng
     cls = cls or r.choice(CLASSES)
     sids_items = state_ids(state)
